@@ -573,3 +573,95 @@ def rule_accum(c: Ctx) -> RuleResult:
           f"{npipe} escape-unaware pipe operation(s) in the table module")
     r.floor = 1
     return r
+
+
+# ------------------------------------------------------------------------------------------------ ONELINE
+_LINE_TABLES = ("bMarks", "eMarks")
+
+
+def _line_tags(rd: Reaching, e: ast.AST, at: ast.AST, depth: int = 0, seen: frozenset = frozenset()) -> set[str]:
+    """Texts of the line indices from whose line-table cells (bMarks[i] / eMarks[i]) the position expression `e` derives."""
+    if depth > 6:
+        return {"?"}
+    if isinstance(e, ast.Constant):
+        return set()
+    if isinstance(e, ast.Subscript) and isinstance(e.value, ast.Attribute):
+        if e.value.attr in _LINE_TABLES:
+            return {U(e.slice)}
+        if e.value.attr in ("tShift", "sCount", "bsCount"):
+            return set()
+    if isinstance(e, ast.BinOp):
+        return _line_tags(rd, e.left, at, depth + 1, seen) | _line_tags(rd, e.right, at, depth + 1, seen)
+    if isinstance(e, ast.Call):
+        out: set[str] = set()
+        for a in e.args:
+            if not isinstance(a, ast.Name) or a.id in seen or True:
+                out |= {t for t in _line_tags(rd, a, at, depth + 1, seen) if not t.startswith("param:")}
+        return out
+    if isinstance(e, ast.Name):
+        if e.id in seen:
+            return set()
+        out = set()
+        for d in rd.at_ast(at, e.id):
+            if d.kind == "param":
+                out.add("param:" + e.id)
+            elif d.kind == "assign" and d.value is not None and d.stmt is not None:
+                out |= _line_tags(rd, d.value, d.stmt, depth + 1, seen | {e.id})
+            elif d.kind == "aug":
+                continue
+            else:
+                out.add("?")
+        return out
+    return set()
+
+
+def rule_oneline(c: Ctx) -> RuleResult:
+    r = RuleResult("ONELINE", "a raw slice of the source never spans lines in a block rule: both ends of `src[a:b]` derive from the line-table "
+                              "cells of one and the same line (text that crosses a line boundary is taken through getLines, which "
+                              "strips the prefixes of enclosing containers from every line)")
+    from ..valnum import analyse as vn_analyse
+    n = 0
+    for f in sorted(c.cg.parse_phase(), key=lambda x: x.qual):
+        if not f.module.rel.startswith("rules_block/"):
+            continue
+        sc = c.tf.scope(f)
+        sl = [x for x in own_nodes(f.node) if isinstance(x, ast.Subscript) and isinstance(x.slice, ast.Slice) and x.slice.lower is not None
+              and x.slice.upper is not None and isinstance(x.ctx, ast.Load) and sc.type(x.value) == "str"
+              and (U(x.value).endswith(".src") or U(x.value) == "src")]
+        if not sl:
+            continue
+        r.functions += 1
+        rd = Reaching(c.cfg(f))
+        vn_state = None
+        for x in sl:
+            n += 1
+            lo = {t for t in _line_tags(rd, x.slice.lower, x) if not t.startswith("param:") and t != "?"}
+            hi = {t for t in _line_tags(rd, x.slice.upper, x) if not t.startswith("param:") and t != "?"}
+            key = f"{f.short}|{alpha(f, x)[:70]}"
+            if not lo or not hi or lo == hi:
+                r.add(key, c.where(f, x), f.short, U(x)[:70], "discharged",
+                      f"both ends derive from line `{sorted(lo | hi)[0]}`" if (lo or hi) else "ends are not taken from line-table cells of different lines")
+                continue
+            same = False
+            if len(lo) == 1 and len(hi) == 1:
+                if vn_state is None:
+                    vn_state = vn_analyse(c, f)
+                vcfg, vres, vn = vn_state
+                try:
+                    ea, eb = ast.parse(next(iter(lo)), mode="eval").body, ast.parse(next(iter(hi)), mode="eval").body
+                    for nd in vcfg.owner(x):
+                        env = vres.get(nd.id)
+                        if env is not None and vn.val(ea, env, nd.id) == vn.val(eb, env, nd.id):
+                            same = True
+                except SyntaxError:
+                    pass
+            if same:
+                r.add(key, c.where(f, x), f.short, U(x)[:70], "discharged", f"lines `{sorted(lo)[0]}` and `{sorted(hi)[0]}` have the same value here")
+            else:
+                r.add(key, c.where(f, x), f.short, U(x)[:70], "violation",
+                      f"the slice starts in line {sorted(lo)} and ends in line {sorted(hi)}: a raw slice across lines keeps the prefixes of "
+                      f"enclosing containers (`> `, list indentation) on every line after the first")
+    if n < 6:
+        raise AnchorError(f"only {n} source slices found in the block rules")
+    r.floor = 6
+    return r
